@@ -193,6 +193,7 @@ def run(ctx):
         # drop every reference to the parameter object and to the sessions that hold it
         del uni.params[name]
         for v in [v for v in r.inst if v.endswith("%d" % k)]:
+            r.t._peek(r.inst[v])
             r.t.objs.pop(r.inst[v], None)
         del P
         if k % 50 == 0:
